@@ -76,8 +76,8 @@ pub fn c03_sanitizer_jobs(run: &mut Run) {
     // build once (cargo serialises), then 16 seeds in parallel
     let mk = |s: u64, fp: Option<&str>| {
         let mut c = Command::new("cargo");
-        c.current_dir("/verif")
-            .args(["+nightly", "miri", "run", "--release", "--manifest-path", "/verif/harness/Cargo.toml", "--target-dir", "/verif/.target/miri", "--", "go-job", &s.to_string(), "3", "miri"])
+        c.current_dir(crate::ev::root())
+            .args(["+nightly", "miri", "run", "--release", "--manifest-path", &format!("{}/harness/Cargo.toml", crate::ev::root()), "--target-dir", &format!("{}/.target/miri", crate::ev::root()), "--", "go-job", &s.to_string(), "3", "miri"])
             .env("CARGO_NET_OFFLINE", "true")
             .env("MIRIFLAGS", format!("-Zmiri-disable-isolation -Zmiri-seed={}", s))
             .env_remove("RUSTFLAGS");
@@ -128,12 +128,13 @@ pub fn c03_sanitizer_jobs(run: &mut Run) {
     // ---- TSan -------------------------------------------------------------------------------
     let t0 = Instant::now();
     let mut b = Command::new("cargo");
-    b.current_dir("/verif")
-        .args(["+nightly", "build", "--release", "-Zbuild-std", "--target", "x86_64-unknown-linux-gnu", "--manifest-path", "/verif/harness/Cargo.toml", "--target-dir", "/verif/.target/tsan"])
+    b.current_dir(crate::ev::root())
+        .args(["+nightly", "build", "--release", "-Zbuild-std", "--target", "x86_64-unknown-linux-gnu", "--manifest-path", &format!("{}/harness/Cargo.toml", crate::ev::root()), "--target-dir", &format!("{}/.target/tsan", crate::ev::root())])
         .env("CARGO_NET_OFFLINE", "true")
         .env("RUSTFLAGS", "-Zsanitizer=thread");
     let (st, out) = run_cmd(b, Duration::from_secs(1200));
-    let bin = "/verif/.target/tsan/x86_64-unknown-linux-gnu/release/wmon";
+    let bin_s = format!("{}/.target/tsan/x86_64-unknown-linux-gnu/release/wmon", crate::ev::root());
+    let bin = bin_s.as_str();
     if st != Some(0) || !std::path::Path::new(bin).exists() {
         run.acc.inconclusive.push(format!("TSan build failed: {}", truncate(&out, 300)));
     } else {
